@@ -6,14 +6,20 @@
    COVERAGE of the operation alphabet (DESIGN.md section 7 rule):
      proved [U], every table set (TablesOK for the moves), every world with TreeFacts /\ Inv04 /\ Inv05 (= Inv06),
      every reference graph:
-        OpSetItemName                              (C06_rename, C06_rename_rewrites_prefix)
-        OpMove, OpMoveAt within ONE model when the moved element is IDENTIFIABLE, including the renaming by
-        make_unique_item_name and the re-positioning inside the same parent
-                                                   (C06_move_local_partial, C06_move_at_local_partial)
-     PENDING = pending06 (covered by the history correspondence and the implementation-side oracle of checks/c06.py only):
-        OpMove / OpMoveAt of a NON-identifiable container holding identifiable elements (the per-path
-        fix_identifiables loop of move_element_local), and OpMove / OpMoveAt ACROSS models (move_element_full,
-        C06_move_cross).
+        OpSetItemName                                         C06_rename, C06_rename_rewrites_prefix
+        OpMove, OpMoveAt, same model, identifiable element    C06_move_partial (+ _local_partial, _at_local_partial)
+        OpMove, OpMoveAt, same model, NON-identifiable container holding identifiable elements, provided no moved
+          element's new path is already in the index (collision06 = false)          C06_move_ops, case 2
+        OpMove, OpMoveAt ACROSS models (move_element_full)                           C06_move_ops, case 3
+        all of them along histories from the empty world                             C06_history
+     NOT claimed (K06_collision, a finding of the code, C06_container_collision_refuted): a same-model move of a
+        non-identifiable container whose content gets paths that already exist - the container branch of
+        move_element_local has no uniqueness check, two elements share one path and the index entry is overwritten.
+        This class includes container moves between two parents that share the nearest identifiable ancestor.
+     C06_history depends on C04_C05_reachable_partial (agent-c04) for the invariants at the world before the operation:
+        the PREFIX of the history must be clean45 (no Known class of C03/C04/C05, no constructor pending there:
+        OpCopy, OpCopyAt, OpMove, OpMoveAt, OpRemoveFile, OpRemoveFromFile); the operation considered may be any.
+     pending06 (Tree/Follow.v) is kept as the hypothesis of the earlier theorem C06_move_partial only.
      all other constructors do not rename or move and are not the subject of C06.
 
    FINDING kept on purpose (known finding C06-dangling-prefix-rewritten): set_item_name rewrites EVERY reference of the
@@ -21,7 +27,8 @@
    "/p1/zzz" becomes "/q/zzz" when /p1 is renamed to q, although it is one of "all other references" of the
    property text (C06_rename_dangling_refuted).  For references that resolve, clause (2) shows the text is kept. *)
 From AV Require Import Base.Bytes Base.Outcome Hash.HashModel Tree.Heap Tree.Ops Tree.Script Tree.Inv Tree.InvProofs
-  Tree.Index Tree.Refs Tree.Follow Tree.FollowProofsRename Tree.FollowProofsMove Tree.FollowWitness.
+  Tree.Index Tree.Refs Tree.IndexProofsBridge Tree.Follow Tree.FollowProofsRename Tree.FollowProofsMove
+  Tree.FollowProofsContainer Tree.FollowProofsCross Tree.FollowProofsAll Tree.FollowWitness.
 Open Scope list_scope.
 Open Scope N_scope.
 
@@ -146,3 +153,102 @@ Theorem C06_rename_example :
     assoc_get (BS "/p10") (Tiny.idents_of w' 0) = Some 7 /\ assoc_get (BS "/p1") (Tiny.idents_of w' 0) = None /\
     assoc_get (BS "/q") (Tiny.origins_list w' 0) = Some [16; 12].
 Proof. exact rename_follow_example. Qed.
+
+(* ====================================================================== all moves, and histories *)
+
+(* [U] every successful OpMove / OpMoveAt outside K06_collision, by case:
+   case 1 (same model, identifiable moved element): the three clauses of C06_move_partial;
+   case 2 (same model, non-identifiable container, no path collision): (1) every live reference that designated an element
+          of the moved subtree designates the same element object afterwards, (2) every reference keeps its text unless it
+          is a live reference of this model that designated an element of the moved subtree;
+   case 3 (different models): (a) a reference INSIDE the moved subtree that designated an element of the subtree designates
+          the same element object in the DESTINATION model (also when make_unique_item_name renamed the moved element there)
+          and is registered in the destination's referrer map, (b) a reference inside the subtree that pointed elsewhere
+          (or nowhere) keeps its text and is registered in the destination's referrer map, (c) every reference outside the
+          moved subtree - in particular those of the source model that pointed into it - keeps its text. *)
+Theorem C06_move_ops :
+  forall (T : tables) (tab_el tab_en : nametab) (check_fn : N -> list N -> res bool) (LATEST : N)
+         (root_attrs : list (N * cdata)) (o : op) (w w' : world) (v : value) (h mv : id),
+  TablesOK T check_fn -> Inv06 T check_fn w ->
+  run_op T tab_el tab_en check_fn LATEST root_attrs o w = Val (OK v, w') ->
+  (o = OpMove h mv \/ exists pos, o = OpMoveAt h mv pos) ->
+  K06_collision T w o = false ->
+  exists m m_src, model_of h w = Val (OK m, w) /\ model_of mv w = Val (OK m_src, w) /\
+    ((m = m_src /\ identifiable T w mv = true /\
+      (forall rf x, live_ref T w m rf -> designates T w m rf x -> below T w mv x -> designates T w' m rf x) /\
+      (forall rf p, ref_text T w rf = Some p -> resolves T w m rf ->
+                    ~ (exists x, designates T w m rf x /\ below T w mv x) -> ref_text T w' rf = Some p) /\
+      (forall rf p src, SpecPath T w m mv src -> ref_text T w rf = Some p ->
+                        ~ (live_ref T w m rf /\ old_form src p) -> ref_text T w' rf = Some p))
+     \/
+     (m = m_src /\ identifiable T w mv = false /\
+      (forall rf x, live_ref T w m rf -> designates T w m rf x -> below T w mv x -> designates T w' m rf x) /\
+      (forall rf p, ref_text T w rf = Some p ->
+                    ~ (live_ref T w m rf /\ exists x, designates T w m rf x /\ below T w mv x) ->
+                    ref_text T w' rf = Some p))
+     \/
+     (m <> m_src /\
+      (forall rf x, below T w mv rf -> designates T w m_src rf x -> below T w mv x ->
+                    designates T w' m rf x /\
+                    exists xm p, model_at w' m = Some xm /\ ref_text T w' rf = Some p /\ In rf (origins_of xm p)) /\
+      (forall rf p, below T w mv rf -> ref_text T w rf = Some p ->
+                    ~ (exists x, designates T w m_src rf x /\ below T w mv x) ->
+                    ref_text T w' rf = Some p /\
+                    exists xm p0, model_at w' m = Some xm /\ ref_text T w' rf = Some p0 /\ In rf (origins_of xm p0)) /\
+      (forall rf p, ref_text T w rf = Some p -> ~ below T w mv rf -> ref_text T w' rf = Some p))).
+Proof. exact C06_move_ops. Qed.
+
+(* [U] along histories: for every history l from the empty world that is clean for C03/C04/C05 (see the header for this
+   dependency) and every operation o that succeeds in the world it reaches: a rename satisfies the three clauses of
+   C06_rename, a move outside K06_collision satisfies the clauses of its case (move_clauses = the conclusion of
+   C06_move_ops, rename_clauses = the conclusion of C06_rename with the model made explicit; Tree/FollowProofsAll.v) *)
+Theorem C06_history :
+  forall (T : tables) (tab_el tab_en : nametab) (check_fn : N -> list N -> res bool) (LATEST : N)
+         (root_attrs : list (N * cdata)),
+  TablesOK T check_fn ->
+  forall (l : list op) (w : world) (o : op) (v : value) (w' : world),
+  clean45 T tab_el tab_en check_fn LATEST root_attrs l empty_world = true ->
+  run_ops T tab_el tab_en check_fn LATEST root_attrs l empty_world = Val w ->
+  run_op T tab_el tab_en check_fn LATEST root_attrs o w = Val (OK v, w') ->
+  (forall h nn, o = OpSetItemName h nn -> rename_clauses T w w' h) /\
+  (forall h mv, (o = OpMove h mv \/ exists pos, o = OpMoveAt h mv pos) -> K06_collision T w o = false ->
+                move_clauses T w w' h mv).
+Proof. exact C06_history. Qed.
+
+(* finding: without the side condition the container move creates a duplicate path and retargets an unrelated reference *)
+Theorem C06_container_collision_refuted :
+  exists w w',
+    run_ops Tiny.tiny Tiny.tiny_el Tiny.tiny_en Tiny.tiny_check_fn Tiny.LATEST [] sX Tiny.empty_world = Val w /\
+    Inv06 Tiny.tiny Tiny.tiny_check_fn w /\
+    e_move_element_here Tiny.tiny Tiny.tiny_en Tiny.tiny_check_fn Tiny.LATEST 17 4 w = Val (OK 4, w') /\
+    identifiable Tiny.tiny w 4 = false /\ collision06 Tiny.tiny w 17 4 = true /\
+    ref_text Tiny.tiny w 22 = Some (BS "/c/S") /\ ref_text Tiny.tiny w' 22 = Some (BS "/c/S") /\
+    assoc_get (BS "/c/S") (Tiny.idents_of w 0) = Some 20 /\ assoc_get (BS "/c/S") (Tiny.idents_of w' 0) = Some 5 /\
+    index_ok Tiny.tiny w = true /\ index_ok Tiny.tiny w' = false.
+Proof. exact container_collision. Qed.
+
+(* non-vacuity: a container move (case 2) and a cross-model move with renaming in the destination (case 3) *)
+Theorem C06_move_container_example :
+  exists w w',
+    run_ops Tiny.tiny Tiny.tiny_el Tiny.tiny_en Tiny.tiny_check_fn Tiny.LATEST [] sK Tiny.empty_world = Val w /\
+    Inv06 Tiny.tiny Tiny.tiny_check_fn w /\
+    e_move_element_here Tiny.tiny Tiny.tiny_en Tiny.tiny_check_fn Tiny.LATEST 17 4 w = Val (OK 4, w') /\
+    model_of 17 w = Val (OK 0, w) /\ model_of 4 w = Val (OK 0, w) /\ identifiable Tiny.tiny w 4 = false /\
+    collision06 Tiny.tiny w 17 4 = false /\
+    texts w' = [Some (BS "/p1"); Some (BS "/b/S"); Some (BS "/p10"); Some (BS "/p1/zzz"); Some (BS "/q")] /\
+    assoc_get (BS "/p1/S") (Tiny.idents_of w 0) = Some 5 /\ assoc_get (BS "/b/S") (Tiny.idents_of w' 0) = Some 5 /\
+    assoc_get (BS "/p1/S") (Tiny.idents_of w' 0) = None.
+Proof. exact move_container_example. Qed.
+
+Theorem C06_move_cross_example :
+  exists w w',
+    run_ops Tiny.tiny Tiny.tiny_el Tiny.tiny_en Tiny.tiny_check_fn Tiny.LATEST [] sC2 Tiny.empty_world = Val w /\
+    Inv06 Tiny.tiny Tiny.tiny_check_fn w /\
+    e_move_element_here Tiny.tiny Tiny.tiny_en Tiny.tiny_check_fn Tiny.LATEST 18 7 w = Val (OK 7, w') /\
+    model_of 18 w = Val (OK 1, w) /\ model_of 7 w = Val (OK 0, w) /\
+    texts w' = [Some (BS "/p1"); Some (BS "/p1/S"); Some (BS "/p10_1"); Some (BS "/p1/zzz"); Some (BS "/q")] /\
+    assoc_get (BS "/p10") (Tiny.idents_of w 0) = Some 7 /\ assoc_get (BS "/p10_1") (Tiny.idents_of w' 1) = Some 7 /\
+    assoc_get (BS "/p10") (Tiny.idents_of w' 1) = Some 19 /\ assoc_get (BS "/p10") (Tiny.idents_of w' 0) = None /\
+    Tiny.origins_list w' 0 = [] /\
+    Tiny.origins_list w' 1 = [(BS "/p1", [12]); (BS "/p1/S", [13]); (BS "/p10_1", [14]); (BS "/p1/zzz", [15]); (BS "/q", [16])].
+Proof. exact move_cross_example. Qed.
